@@ -58,6 +58,7 @@ lst = z3.Function('least_position', F, W, I, I)
 wfobj = z3.Function('object_invariant', F, B)
 w_obj = z3.Function('w_obj', F, I)
 UNARY = ('A', 'E', 'Not', 'X', 'F', 'G')
+nonfair_s = z3.Function('non_fair_formula_sem', F, H, F)   # result of get_equivalent_non_fair_formula(label)
 named = z3.Function('named', I, B)      # always true; keeps a term in a lemma's hypothesis so that e-matching sees it
 
 
@@ -218,6 +219,13 @@ def lnot_keeps_objects():
     return [z3.ForAll([f], z3.Implies(wfobj(f), wfobj(lnot_f(f))), patterns=[lnot_f(f)])]
 
 
+def nonfair_keeps_objects():
+    """ASSUMED (C08/C15, bounded): the fairness rewriting returns an object that satisfies the arity invariant"""
+    f = z3.Const('f!nf', F)
+    lb = z3.Const('l!nf', H)
+    return [z3.ForAll([f, lb], z3.Implies(wfobj(f), wfobj(nonfair_s(f, lb))), patterns=[nonfair_s(f, lb)])]
+
+
 def ctl_induction_hypothesis():
     f = z3.Const('f!ihc', F)
     r = lnot_f(f)
@@ -340,6 +348,12 @@ class SemExt(Extension):
                 return SV('F', restr(f))
             if attr == 'subformulas':
                 return SV('seqval', None, (nk(f), lambda j, f=f: SV('F', kid(f, j))))
+            if attr == 'cast_to':
+                # same tree in the target language, or TypeError (C08)
+                ex.may_raise('TypeError', hp.fresh('cast_fails', B), path, node)
+                return SV('F', f)
+            if attr == 'get_equivalent_non_fair_formula' and len(args) == 1 and args[0].ty == 'H':
+                return SV('F', nonfair_s(f, args[0].t))
             if attr == 'clone':
                 return SV('F', f)       # formulas are identified with their trees
         if base.ty == 'fseq' and attr == 'append' and args[0].ty == 'F':
